@@ -6,8 +6,8 @@ claimed={
  "C01":("exploration","exhaustive 3-variable two-route construction under all orders + proptest histories (3..8 variables) with pairwise handle/table comparison after every step","PBT: stateful proptest histories + exhaustive small scope vs truth-table model (canonicity both directions)"),
  "C02":("exploration","exhaustive 3-variable operand tuples under all orders/kinds/thread+split-depth configs + proptest random operands over 4..8 variables against a bitwise truth-table oracle and an independent diagram interpreter","PBT: exhaustive small-scope enumeration + proptest random operands vs truth-table model"),
  "C03":("exploration","structural audit (ordered, reduced, duplicate-free, level bookkeeping, exact node counts vs reference canonical form) after every step of proptest histories","PBT: stateful proptest histories with invariant audit after every step"),
- "C04":("exploration","exhaustive quantification/restriction/apply-quantify/substitution over 3 variables under all orders + histories with reused/alternated substitutions","PBT: exhaustive small scope + stateful proptest histories vs cofactor arithmetic on truth tables"),
- "C05":("exploration","reference-count audit after every step and exactness of every gc() in proptest histories biased to clone/drop/gc","PBT: stateful proptest histories with reference-count model"),
+ "C04":("exploration","exhaustive quantification/restriction/apply-quantify/substitution over 3 variables under all orders + histories with reused/alternated substitutions (substitution objects also created on other threads)","PBT: exhaustive small scope + stateful proptest histories vs cofactor arithmetic on truth tables"),
+ "C05":("exploration","reference-count audit after every step and exactness of every gc() in proptest histories biased to clone/drop/gc (incl. DDDMP export/import steps); capacity probes (stores < 100 slots, MTBDD terminals, chunked stores >= 64Ki slots: differential fill against a fresh manager); automatic collections","PBT: stateful proptest histories with reference-count model + seeded capacity/terminal/chunk probes"),
  "C06":("exploration","each proptest history replayed under cache capacities 1/2/16/65536 and with warm-up noise; digests equal, repeated ops give identical handles","PBT: differential over cache configurations + model-based histories"),
  "C09":("exploration","exhaustive ZBDD family operations over 3 variables under all orders + random families with add_vars","PBT: exhaustive small scope + proptest vs set arithmetic on bit masks"),
  "C13":("exploration","exhaustive choice vectors x literal sets over 3 variables, random over 4..8, against a table-level simulation of the canonical walk; chi-square for uniform picking","PBT: exhaustive small scope + proptest vs walk oracle; statistical test with fixed seeds"),
